@@ -29,8 +29,27 @@ Definition valid_material (b : board) : bool :=
 (* the same on the text of a FEN placement field: count the letters *)
 Definition count_byte (c : N) (s : list N) : Z := Z.of_nat (length (filter (N.eqb c) s)).
 
+(* the placement text describes a board: 8 ranks separated by '/', every rank made of piece letters
+   and digits 1..8 that add up to exactly 8 squares.  (The engine's parser lets an over-long rank run
+   into the next one and overwrite squares; such a text is not the FEN of any position, and letter
+   counts say nothing about the board it produces.) *)
+Fixpoint rank_width (r : list N) : Z :=
+  match r with
+  | [] => 0%Z
+  | c :: t => (if (49 <=? c)%N && (c <=? 56)%N then Z.of_N (c - 48) else 1) + rank_width t
+  end.
+Fixpoint split_ranks (s : list N) (cur : list N) : list (list N) :=
+  match s with
+  | [] => [rev cur]
+  | c :: t => if (c =? 47)%N then rev cur :: split_ranks t [] else split_ranks t (c :: cur)
+  end.
+Definition placement_wellformed (placement : list N) : bool :=
+  let rs := split_ranks placement [] in
+  (length rs =? 8)%nat && forallb (fun r => (rank_width r =? 8)%Z) rs.
+
 Definition text_material_ok (placement : list N) : bool :=
   let n c := count_byte c placement in
+  placement_wellformed placement &&
   material_ok (n 75%N) (n 80%N) (n 78%N) (n 66%N) (n 82%N) (n 81%N) &&     (* K P N B R Q *)
   material_ok (n 107%N) (n 112%N) (n 110%N) (n 98%N) (n 114%N) (n 113%N).  (* k p n b r q *)
 
